@@ -3,7 +3,7 @@ CONSTANTS
   Masters = {1, 2, 3, 4}
   Nodes = {1}
   Rules <- AllRules
-  Cfg <- CfgPoS3
+  Cfg <- CfgPoS0
   MaxLive = 2
   MaxNum = 5
   MaxNow = 2
